@@ -19,6 +19,53 @@ pub fn tstr(args: &[&str]) -> String {
         _ => "BADCASE".into(),
     }
 }
+/// TSTRESS <t0> <step> <count>: the times t0, t0+step, .. formatted first by this thread alone (the reference), then by 8 threads at once,
+/// 300 rounds each in different orders: formatting is a function of the time, whoever else is formatting  ->  OK <count> SAME | DIFF <t>
+pub fn tstress(args: &[&str]) -> String {
+    let (t0, step, count) = match args {
+        [a, b, c] => match (get_u64(a), get_u64(b), get_u64(c)) {
+            (Some(a), Some(b), Some(c)) if (1..=64).contains(&c) => (a, b, c),
+            _ => return "BADCASE".into(),
+        },
+        _ => return "BADCASE".into(),
+    };
+    let times: Vec<u64> = (0..count).map(|i| t0.wrapping_add(step.wrapping_mul(i))).collect();
+    let reference: Vec<(String, String)> =
+        times.iter().map(|t| (t.string(), CreationTimestamp::with_time_and_seq(*t, 7).to_string())).collect();
+    let times = std::sync::Arc::new(times);
+    let reference = std::sync::Arc::new(reference);
+    let barrier = std::sync::Arc::new(std::sync::Barrier::new(8));
+    let hs: Vec<_> = (0..8usize)
+        .map(|k| {
+            let (times, reference, barrier) = (times.clone(), reference.clone(), barrier.clone());
+            std::thread::spawn(move || {
+                barrier.wait();
+                for round in 0..300usize {
+                    for j in 0..times.len() {
+                        let i = (j * (2 * k + 1) + round + k) % times.len();
+                        let t = times[i];
+                        if t.string() != reference[i].0 || CreationTimestamp::with_time_and_seq(t, 7).to_string() != reference[i].1 {
+                            return Some(t);
+                        }
+                    }
+                }
+                None
+            })
+        })
+        .collect();
+    let mut bad = None;
+    for h in hs {
+        match h.join() {
+            Ok(Some(t)) => bad = Some(t),
+            Ok(None) => {}
+            Err(_) => return "PANIC".into(),
+        }
+    }
+    match bad {
+        Some(t) => format!("DIFF {}", t),
+        None => format!("OK {} SAME", count),
+    }
+}
 pub fn tsfmt(args: &[&str]) -> String {
     match args {
         [t, s] => match (get_u64(t), get_u64(s)) {
